@@ -2,7 +2,7 @@
 """Run all 20 checks on behaviour-preserving refactorings (sub-agent patches): every check must stay silent."""
 import os, shutil, subprocess, sys, tempfile
 from concurrent.futures import ProcessPoolExecutor
-PROPS = ["C%02d" % i for i in range(1, 21)]
+PROPS = os.environ.get("REFAC_PROPS", "").split() or ["C%02d" % i for i in range(1, 21)]   # REFAC_PROPS="C05 C09": regress only those checks
 
 def one(args):
     d, name = args
@@ -35,7 +35,7 @@ for k in sorted(os.listdir(base)):
 with ProcessPoolExecutor(int(os.environ.get("REFAC_JOBS", "12"))) as ex:
     for name, out in ex.map(one, work):
         if not out:
-            print(f"{name}: silent on all 20")
+            print(f"{name}: silent on all {len(PROPS)}")
         else:
             for p, v in out.items():
                 print(f"{name}: {p} -> {v}")
